@@ -58,10 +58,9 @@ class LiteIdentityKeyStore(IdentityKeyStore):
         self.dbConn.commit()
 
     def saveIdentity(self, recipientId, identityKey):
+        # replace within one transaction, a crash must not drop the pinned identity
         q = "DELETE FROM identities WHERE recipient_id=?"
         self.dbConn.cursor().execute(q, (recipientId,))
-        self.dbConn.commit()
-
 
         q = "INSERT INTO identities (recipient_id, public_key) VALUES(?, ?)"
         c = self.dbConn.cursor()
